@@ -262,6 +262,30 @@ def run(ctx):
                       f"done-callback table, task.add_done_callback(task.current_task(), ...) inside the run raises KeyError and no callback runs when it ends", key="run without callback table",
                       node=c, rel=uid.split("::")[0])
 
+    ctx.rule("R14.12", "the evaluator a run's done callbacks are evaluated on is the one created for that run: at every run site the evaluator handed to "
+             "Function.create_task / Function.task_done_callback_ctx is the AstEval the site itself has just built (never the caller's, which is busy with the caller's own code)", floor=5)
+    for uid in RUN_SITES:
+        f = program.func(uid)
+        built = [norm(n.targets[0]) for n in body_walk(f) if isinstance(n, ast.Assign) and isinstance(n.value, ast.Call) and call_name(n.value) == "AstEval" and len(n.targets) == 1]
+        if len(built) != 1:
+            raise AnalysisError(f"R14.12: {uid} builds {len(built)} evaluators, expected one")
+        given = []
+        for n in body_walk(f):
+            if isinstance(n, ast.Call) and call_name(n) == "Function.create_task":
+                given += [(n, norm(k.value)) for k in n.keywords if k.arg == "ast_ctx"] + [(n, norm(a)) for a in n.args[1:2]]
+            elif isinstance(n, ast.Call) and call_name(n) == "Function.task_done_callback_ctx" and len(n.args) > 1:
+                given.append((n, norm(n.args[1])))
+        bad = [(n, g) for n, g in given if g != built[0]]
+        ctx.check(bool(given) and not bad, "R14.12", uid, f"done callbacks of the run use its own evaluator `{built[0]}`",
+                  msg=f"{uid}: " + "; ".join(f"`{short(n)}` registers evaluator `{g}`" for n, g in bad) + f" while the run was given its own evaluator `{built[0]}`: the done callbacks are "
+                  f"evaluated on an evaluator that is executing other code at that moment (its symbol table, current function and exception state are overwritten)",
+                  key="callback evaluator is the run's own", node=bad[0][0] if bad else f, rel=uid.split("::")[0])
+
+    ctx.rule("R14.13", "the unique names of a task are forgotten at its exit without disturbing anybody else: the owner map and the per-task name sets stay mutually consistent "
+             "over every task.unique transition (a name left in the old owner's set makes that owner's exit delete the new owner's entry, and the new owner's exit fail in its cleanup)", floor=16)
+    from .c13 import unique_table
+    unique_table(ctx, program, "R14.13")
+
     ctx.rule("R14.11", "done callbacks are kept one per callback *function*: an object that is built anew on every access (the bound method made by a descriptor's __get__) "
              "compares and hashes by what it denotes (function, instance), so adding it twice keeps one entry and task.remove_done_callback finds it", floor=1)
     tree = program.module("eval.py")
